@@ -32,28 +32,28 @@ type Stats struct {
 
 // Solver drives one long-lived solver process (z3 -in or cvc5 --incremental) over SMT-LIB2.
 type Solver struct {
-	Name    string
-	cmd     *exec.Cmd
-	in      io.WriteCloser
-	out     *bufio.Reader
-	defined map[int]bool    // term IDs defined at run level
-	declV   map[string]bool // vars
-	declF   map[string]bool
-	active  bool
-	seq     int
-	St      Stats
-	Log     io.Writer // optional transcript
-	argv    []string
-	timeout int
-	dead    bool
-	LastErr string
-	buf     strings.Builder
+	Name     string
+	cmd      *exec.Cmd
+	in       io.WriteCloser
+	out      *bufio.Reader
+	defined  map[int]bool    // term IDs defined at run level
+	declV    map[string]bool // vars
+	declF    map[string]bool
+	active   bool
+	seq      int
+	St       Stats
+	Log      io.Writer // optional transcript
+	argv     []string
+	timeout  int
+	dead     bool
+	LastErr  string
+	buf      strings.Builder
 	asserted []*Term
 	OneShots int
 	Retries  int
 }
 
-func Z3Argv() []string   { return []string{"z3", "-in", "-smt2"} }
+func Z3Argv() []string    { return []string{"z3", "-in", "-smt2"} }
 func Z3NewArgv() []string { return []string{"z3-new", "-in", "-smt2"} }
 func CVC5Argv() []string {
 	return []string{"cvc5", "--incremental", "--lang=smt2", "--produce-models", "--strings-exp", "--fp-exp"}
